@@ -113,39 +113,37 @@ def affine_cone(model, roots, data_bits, state_cells, wiring_only=False, through
             ctrl_net(m, why)
 
     def data_net(n):
+        # bit-precise: output bit k of a bitwise cell depends on bit k of its operands only
         if n.is_const: return
         if n.cell == 0:
             if n.bit not in data_bits:
                 raise ConeError(f"control input bit {n.bit} is used as data")
             data_support.add(n.bit); return
         c = cells[n.cell]
+        k = n.bit
+        if isinstance(c, nir.FlipFlop) and n.cell in state_cells:
+            state_support.add((n.cell, k)); return
+        if isinstance(c, nir.FlipFlop) and not through_registers:
+            raise ConeError(f"cone reads register cell {n.cell} which is not part of the declared state")
+        if (n.cell, k) in seen_data: return
+        seen_data.add((n.cell, k))
         if isinstance(c, nir.FlipFlop):
-            if n.cell in state_cells:
-                state_support.add((n.cell, n.bit)); return
-            if not through_registers:
-                raise ConeError(f"cone reads register cell {n.cell} which is not part of the declared state")
-            if n.cell in seen_data: return
-            seen_data.add(n.cell)
-            kinds["pipeline-register"] += 1
-            for m in c.data: data_net(m)
-            return
-        if n.cell in seen_data: return
-        seen_data.add(n.cell)
-        if isinstance(c, nir.Operator) and c.operator in ("^", "~") and not wiring_only:
-            kinds[c.operator] += 1
-            for v in c.inputs:
-                for m in v: data_net(m)
+            kinds["pipeline-register-bit"] += 1
+            data_net(c.data[k])
+        elif isinstance(c, nir.Operator) and c.operator in ("^", "~") and not wiring_only:
+            kinds[c.operator + "-bit"] += 1
+            for v in c.inputs: data_net(v[k])
         elif isinstance(c, nir.Operator) and c.operator == "m":
-            kinds["mux"] += 1
+            kinds["mux-bit"] += 1
             for m in c.inputs[0]: ctrl_net(m, f"mux cell {n.cell}")
-            for v in c.inputs[1:]:
-                for m in v: data_net(m)
+            for v in c.inputs[1:]: data_net(v[k])
         elif isinstance(c, nir.AssignmentList):
-            kinds["assignment_list"] += 1
-            for m in c.default: data_net(m)
+            kinds["assignment-bit"] += 1
+            data_net(c.default[k])
             for a in c.assignments:
-                ctrl_net(a.cond, f"assignment list cell {n.cell}")
-                for m in a.value: data_net(m)
+                if a.start <= k < a.start + len(a.value):
+                    ctrl_net(a.cond, f"assignment list cell {n.cell}")
+                    data_net(a.value[k - a.start])
         else:
             what = f"operator '{c.operator}'" if isinstance(c, nir.Operator) else type(c).__name__
             raise ConeError(f"cell {n.cell} ({what}) on the data path is not XOR/NOT/wiring")
